@@ -23,7 +23,7 @@ Ternary == {"Scalar3", "Diff"}
 Nary == {"UnionAll", "InterAll", "Concat"}
 
 Check(t, op, x, y, z, k) ==
-  Pre(op, x, y, z, k) =>
+  (Pre(op, x, y, z, k) /\ PreT(t, op, x, k)) =>
      (Conforms(t, op, x, y, z, k) \/ ~PrintT(<<"lemma fails", t, op, x, y, z, k, A(t, op, x, y, z, k)>>))
 
 UnaryLemma   == \A t \in Types, op \in Unary, x \in Vec(N1) : Check(t, op, x, <<>>, <<>>, <<>>)
@@ -34,6 +34,8 @@ SeqLemma     == /\ \A t \in Types, f, g \in -6..6, b \in 1..4 : Check(t, "Seq", 
                 /\ \A t \in Types, f \in {0, -300, 17}, b \in {49, 50, 51, 99, 100, 101, 128, 200, 250, 1000}, m \in 0..4, d \in {1, -1} :
                       \A e \in {0, 1, 2, b \div 2, b - 2, b - 1} :
                          Check(t, "Seq", <<>>, <<>>, <<>>, <<f, f + d * (m * b + e), b>>)
+MixedLemma   == \A t \in Types, op \in QOps, x \in Vec(N1), m \in {-10, -6, -4, -2, -1, 1, 2, 3, 4, 8, 10} :
+                   Check(t, op, x, <<>>, <<>>, <<m>>)
 ElemLemma    == \A t \in Types, op \in {"AddEqE", "SubEqE", "MulEqE", "DivEqE"}, x \in Vec(N1), i \in 0..(N1 - 1) :
                    Check(t, op, x, <<>>, <<>>, <<i>>)
 BinaryLemma  == \A t \in Types, op \in Binary, x, y \in Vec(N2) : Check(t, op, x, y, <<>>, <<>>)
@@ -78,6 +80,14 @@ RefuseLemma ==
   /\ J("double", "Seq", <<>>, <<>>, <<>>, <<0, 99, 100>>, "ok", "", <<0>>, <<>>, <<>>, <<>>)
   /\ ~J("double", "Seq", <<>>, <<>>, <<>>, <<0, 1000, 200>>, "ok", "", <<0, 200, 400, 600, 800, 1000, 1200, 1400>>, <<>>, <<>>, <<>>)
   /\ ~J("double", "Seq", <<>>, <<>>, <<>>, <<0, 95, 50>>, "ok", "", <<0, 50, 100>>, <<>>, <<>>, <<>>)
+  \* Vint (1, 2, 3) * 2.5 = (2, 5, 7), not (2, 4, 6); * 0.5 = (0, 1, 1); (-1) + 0.5 is -1 or 0 as a binary form, 0 as v += 0.5
+  /\ J("int", "MulSQ", <<1, 2, 3>>, <<>>, <<>>, <<10>>, "ok", "", <<2, 5, 7>>, <<1, 2, 3>>, <<>>, <<>>)
+  /\ ~J("int", "MulSQ", <<1, 2, 3>>, <<>>, <<>>, <<10>>, "ok", "", <<2, 4, 6>>, <<1, 2, 3>>, <<>>, <<>>)
+  /\ ~J("int", "SMulQ", <<1, 2, 3>>, <<>>, <<>>, <<2>>, "ok", "", <<0, 0, 0>>, <<1, 2, 3>>, <<>>, <<>>)
+  /\ J("int", "AddSQ", <<-1>>, <<>>, <<>>, <<2>>, "ok", "", <<-1>>, <<-1>>, <<>>, <<>>)
+  /\ J("int", "AddSQ", <<-1>>, <<>>, <<>>, <<2>>, "ok", "", <<0>>, <<-1>>, <<>>, <<>>)
+  /\ ~J("int", "AddEqSQ", <<-1>>, <<>>, <<>>, <<2>>, "ok", "", 0, <<-1>>, <<>>, <<>>)
+  /\ J("int", "AddEqSQ", <<-1>>, <<>>, <<>>, <<2>>, "ok", "", 0, <<0>>, <<>>, <<>>)
   \* v -= v[0] on (2, 5): (0, 3), not (0, 5)
   /\ J("int", "SubEqE", <<2, 5>>, <<>>, <<>>, <<0>>, "ok", "", 0, <<0, 3>>, <<>>, <<>>)
   /\ ~J("int", "SubEqE", <<2, 5>>, <<>>, <<>>, <<0>>, "ok", "", 0, <<0, 5>>, <<>>, <<>>)
@@ -107,6 +117,7 @@ RefuseLemma ==
 
 ASSUME LET v == UnaryLemma IN PrintT(<<"Lemma", "Unary", v>>) /\ v
 ASSUME LET v == ScalarLemma IN PrintT(<<"Lemma", "Scalar", v>>) /\ v
+ASSUME LET v == MixedLemma IN PrintT(<<"Lemma", "MixedTypes", v>>) /\ v
 ASSUME LET v == ElemLemma IN PrintT(<<"Lemma", "ElementScalar", v>>) /\ v
 ASSUME LET v == RepLemma /\ SeqLemma IN PrintT(<<"Lemma", "RepSeq", v>>) /\ v
 ASSUME LET v == BinaryLemma IN PrintT(<<"Lemma", "Binary", v>>) /\ v
